@@ -91,7 +91,7 @@ func systemGenOther(c *Ctx, w *trace.Writer, tmp string) {
 		return
 	}
 	if c.Want("det") {
-		n, frames := 5, 30
+		n, frames := 8, 40
 		if c.Thorough() {
 			n, frames = 24, 120
 		}
